@@ -56,6 +56,7 @@ package cty
 //@   ensures[C04] payload: (and (= (cty.Value.ty result) (cty.Value.ty val)) (= (inner_v result) (inner_v val)))
 //@   ensures[C04] union: (forall ((k Any)) (= (select (marks_of result) k) (or (select (marks_of val) k) (in_any_markset marks (Slice.len marks) k))))
 //@   ensures[C04,C06] wf: (wf_marks result)
+//@   ensures[C20] ownmarks: (or (= result val) (< (marks_ptr result) 0))
 //@   loop 1 invariant (and (<= 0 markCount) (<= markCount (* (+ $i 1) 1099511627776)))
 //@   loop 1 invariant (=> (= markCount 0) (and (not (is_marked val)) (marksets_empty marks $i)))
 //@   loop 1 invariant (=> (and (not (is_marked val)) (marksets_empty marks $i)) (= markCount 0))
@@ -73,6 +74,7 @@ package cty
 //@   ensures[C04] payload: (and (= (cty.Value.ty result) (cty.Value.ty val)) (= (inner_v result) (inner_v val)))
 //@   ensures[C04] marks: (forall ((k Any)) (= (select (marks_of result) k) (or (select (marks_of val) k) (= k mark))))
 //@   ensures[C04,C06] wf: (wf_marks result)
+//@   ensures[C20] ownmarks: (< (marks_ptr result) 0)
 //@   loop 1 invariant (forall ((k Any)) (= (select (MapC<Any~Unit>.dom (select $H<MapC<Any~Unit>> (cty.marker.marks newMarker))) k) (select $visited k)))
 //@   loop 1 invariant (MapC<Any~Unit>.ok (select $H<MapC<Any~Unit>> (cty.marker.marks newMarker)))
 //@   loop 1 invariant (and (< (cty.marker.marks newMarker) 0) (= (cty.marker.realV newMarker) (cty.Value.v val)))
@@ -98,6 +100,7 @@ package cty
 //@   ensures[C04] payload: (and (= (cty.Value.ty result) (cty.Value.ty val)) (= (inner_v result) (inner_v val)))
 //@   ensures[C04] union: (forall ((k Any)) (= (select (marks_of result) k) (or (select (marks_of val) k) (in_any_valmarks srcs (Slice.len srcs) k))))
 //@   ensures[C04,C06] wf: (wf_marks result)
+//@   ensures[C20] ownmarks: (or (= result val) (< (marks_ptr result) 0))
 //@   loop 1 invariant (and (<= 0 markCount) (<= markCount (* (+ $i 1) 1099511627776)))
 //@   loop 1 invariant (=> (= markCount 0) (and (not (is_marked val)) (vals_unmarked srcs $i)))
 //@   loop 1 invariant (=> (and (not (is_marked val)) (vals_unmarked srcs $i)) (= markCount 0))
